@@ -284,9 +284,17 @@ class Run:
             # the code turns it into; what it may not do is return a wrong value, and it may not disturb others
             return
         eq, storage = outcome_equal(out, exp)
-        if eq:
+        if eq and storage != 'blades':
             if storage:
-                self.storage_only += 1
+                self.storage_only += 1        # same blades, other order: counted, not a violation
+            return
+        if eq:
+            # the coefficients agree on every blade but the returned multivector stores other blades than the one a
+            # fresh algebra returns (coefficients that vanish identically kept, or dropped): the returned
+            # object differs, and so do keys(), grades and the printed form - a clause of its own
+            self.violations.append(dict(clause='I1-stored-blades' if phase == 'run' else 'I3-stored-blades',
+                                        caller=c, op=i, phase=phase, desc=op, faulted=faulted,
+                                        expected=show_outcome(exp), got=show_outcome(out)))
             return
         clause = 'I1' if phase == 'run' else 'I3'
         if out[0] == 'exc' and exp[0] != 'exc':
